@@ -1,6 +1,7 @@
 """C01 Completeness: every satisfied constraint system yields an accepted proof."""
 import json
 import vlib
+from checks import gadgets
 
 
 def cap_variants(b, k):
@@ -39,6 +40,12 @@ def run(chk):
     for c in vlib.REAL_CURVES:
         rows = vlib.replay(chk, c, good + extra, "c01")
         vlib.report_replay(chk, rows, "completeness")
+    # the repository's own gadgets (k-shuffle with a randomized closure, range proof by bit decomposition, example gadget) with true statements
+    gad = [dict(p, expect_p="ok", expect_v="ok") for p, holds in gadgets.workload(chk.seed, q) if holds]
+    for c in vlib.REAL_CURVES:
+        vlib.report_replay(chk, vlib.replay(chk, c, gad, "gadgets"), "completeness-gadget")
+    vlib.toy_traces(chk, "toy31723", "gadgets", 0, vlib.flags(E=1), "toy-completeness-gadget", cfgname="TraceIdealCompleteness",
+                    progs=[dict(p, expect_p="", expect_v="") for p in gad], name="gad31723")
     # (B3) seeded random honest programs on toy curves: TLC evaluates the statement (Satisfied, SameStatement) on the
     # recorded calls and demands acceptance unless a degenerate event (zero challenge, identity commitment) occurred
     n = 240 if q else 4000
